@@ -291,7 +291,12 @@ pub fn run<S: Scheme>(scn: &Scenario, log: &EventLog) -> RunResult {
                 if let Claim::Open { proof, .. } = &mut c { *proof = p2; }
                 let (d, _) = sess.verify_scratch(&c, 14_000 + i as u64);
                 res.stats.probe(if d.accepted() { "true-claim-mangled-proof-accepted" } else { "true-claim-mangled-proof-rejected" });
-                let _ = name;
+                if d.accepted() {
+                    res.classes.insert(format!("{fam}|{shape}|true-claim-mangled-accepted|{name}"));
+                    if std::env::var_os("PCSIM_DEBUG_MANGLED").is_some() {
+                        eprintln!("MANGLED-ACCEPTED {fam} {name} {}", scn.polys.iter().map(|p| format!("{:?}/h{:?}/b{:?}", p.shape, p.hiding, p.degree_bound)).collect::<Vec<_>>().join(","));
+                    }
+                }
             }
         }
         let (d, _) = sess.verify(&claim, i as u64);
